@@ -668,6 +668,34 @@ def layered_records(g, lay, smi):
     return recs, text
 
 
+_DRIVERS = ("resolve", "resolve_iter", "resolve_all")
+
+
+def coarse_last_record(lay, smi):
+    """the layered string without its atomistic level, resolved with last_all_atom=False by one of the three drivers:
+    the final graph must be the block graph of the fragmentation (names of the blocks, number of cut bonds as order)"""
+    from .writer import graph_witness
+    blocks = [frag_block_text(f) for f in lay["coarse_levels"]]
+    text = render.render_graph_tokens(lay["top"]) + "." + ".".join(blocks)
+    driver = _DRIVERS[len(text) % 3]
+    obs = project.run_resolve(text, last_all_atom=False, legacy=True, driver=driver)
+    bg, names = lay["atomistic"]["bg"], lay["atomistic"]["names"]
+    order = sorted(bg.nodes)
+    idx = {b: i for i, b in enumerate(order)}
+    expected = {"outcome": "ok", "nodes": [[names[b], 0, False, []] for b in order],
+                "edges": sorted([min(idx[a], idx[b]), max(idx[a], idx[b]), 2 * d["order"]] for a, b, d in bg.edges(data=True))}
+    rec = {"mode": "whole", "text": text, "written": True, "f1": expected, "f2": {"outcome": obs["outcome"], "nodes": [], "edges": []},
+           "wit": [], "driver": driver, "smi": smi}
+    if obs["outcome"] == "ok" and obs["steps"]:
+        fine = obs["steps"][-1]["fine"]
+        ids = [n["id"] for n in fine["nodes"]]
+        pos = {k: i for i, k in enumerate(ids)}
+        rec["f2"] = {"outcome": "ok", "nodes": [[n["name"], 0, False, []] for n in fine["nodes"]],
+                     "edges": sorted([min(pos[e[0]], pos[e[1]]), max(pos[e[0]], pos[e[1]]), e[2]] for e in fine["edges"])}
+        rec["wit"] = graph_witness(rec["f1"], rec["f2"])
+    return rec
+
+
 def run_c06(tier):
     check = Check("C06", tier=tier)
     check.rule = ("catalogue and random molecules cut into blocks, the blocks grouped into 1-3 intermediate coarse levels "
@@ -692,6 +720,7 @@ def run_c06(tier):
             mols.append(("random%d" % i, g))
     reps = 2 if tier == "quick" else 10
     recs = []
+    coarse_last = []
     nstr = 0
     for smi, g in mols:
         for _ in range(reps):
@@ -701,6 +730,9 @@ def run_c06(tier):
             rr, text = layered_records(g, lay, smi)
             recs += rr
             nstr += 1
+            # coarse last level: the same string without its atomistic block must end in the block graph
+            if lay["coarse_levels"]:
+                coarse_last.append(coarse_last_record(lay, smi))
             # the flattened two-level string of the same fragmentation
             flat = cut_record(g, lay["atomistic"], legacy=True)
             flat["smi"] = smi
@@ -713,6 +745,19 @@ def run_c06(tier):
     clauses = ["X_Accepted", "X_CoarseIsInput", "C01_Original"] + CLAUSES["C02"] + CLAUSES["C03"]
     CLAUSES["C06"] = clauses
     judge(check, "C06", recs, verdicts, nontrivial=lambda r, v: r.get("nlevels", 1) >= 2)
+    # coarse last level (last_all_atom=False): final graph = the block graph of the fragmentation, for the three drivers
+    wv, stats = tlc.validate("FragTextTrace", [{k: r[k] for k in ("mode", "written", "f1", "f2", "wit")} for r in coarse_last])
+    check.add_tv(stats)
+    for rec, v in zip(coarse_last, wv):
+        check.evaluations += 1
+        check.traces += 1
+        check.nontrivial.add("coarse-last:" + rec["text"])
+        ok = v["C08_WholeResolves"] and v["C08_Whole"]
+        check.count_clause("C06_CoarseLastLevel", bool(ok))
+        if not ok:
+            check.violation("C06_CoarseLastLevel", {"key": "coarse-last:" + rec["text"], "text": rec["text"], "driver": rec["driver"],
+                                                    "obs": {"outcome": rec["f2"]["outcome"]}}, v)
+    check.extra["coarse_last_level_strings"] = len(coarse_last)
     from . import history
     history.run_histories(check, tier, ["X_Behaviour", "C06_Drivers", "C12_Function"])
     return check.finish()
